@@ -37,6 +37,7 @@ class LtlPastifier(LtlAstVisitor):
     def __init__(self):
         self.subformula_horizons = dict()
         self.ast = None
+        self.step = 1
 
     def pastify(self, ast):
         self.ast = ast
